@@ -8,6 +8,7 @@
 //! For an example, see `examples/add_two.rs`.
 
 #![deny(missing_docs)]
+#![allow(unexpected_cfgs)]
 
 use serde::de::DeserializeOwned;
 use serde_derive::{Deserialize, Serialize};
